@@ -385,6 +385,21 @@ def yield_children(logger: ConsolePrinter, data: Any,
             build_path = str(pathsep)
         yield YAMLPath(build_path)
 
+def _record_anchors(data: Any, terms: SearchTerms, seen_anchors: List[str]):
+    """Record the anchors beneath a node whose children will not be searched."""
+    if isinstance(data, CommentedMap):
+        for key, val in data.non_merged_items():
+            Searches.search_anchor(key, terms, seen_anchors)
+            Searches.search_anchor(val, terms, seen_anchors)
+            _record_anchors(val, terms, seen_anchors)
+    elif isinstance(data, CommentedSeq):
+        for ele in data:
+            Searches.search_anchor(ele, terms, seen_anchors)
+            _record_anchors(ele, terms, seen_anchors)
+    elif isinstance(data, CommentedSet):
+        for key in data:
+            Searches.search_anchor(key, terms, seen_anchors)
+
 # pylint: disable=locally-disabled,too-many-arguments,too-many-locals,too-many-branches,too-many-statements
 def search_for_paths(logger: ConsolePrinter, processor: EYAMLProcessor,
                      data: Any, terms: SearchTerms,
@@ -460,6 +475,7 @@ def search_for_paths(logger: ConsolePrinter, processor: EYAMLProcessor,
                             include_value_aliases=include_value_aliases):
                         yield path
                 else:
+                    _record_anchors(ele, terms, seen_anchors)
                     yield YAMLPath(tmp_path)
                 continue
 
@@ -555,6 +571,7 @@ def search_for_paths(logger: ConsolePrinter, processor: EYAMLProcessor,
                                 include_value_aliases=include_value_aliases):
                             yield path
                     else:
+                        _record_anchors(val, terms, seen_anchors)
                         yield YAMLPath(tmp_path)
                     continue
 
@@ -578,6 +595,7 @@ def search_for_paths(logger: ConsolePrinter, processor: EYAMLProcessor,
                     else:
                         # No other matches within this node matter because they
                         # are already in the result.
+                        _record_anchors(val, terms, seen_anchors)
                         yield YAMLPath(tmp_path)
                     continue
 
@@ -600,6 +618,7 @@ def search_for_paths(logger: ConsolePrinter, processor: EYAMLProcessor,
                             include_value_aliases=include_value_aliases):
                         yield path
                 else:
+                    _record_anchors(val, terms, seen_anchors)
                     yield YAMLPath(tmp_path)
                 continue
 
